@@ -32,6 +32,14 @@ pub const SIGMA_LEXEME: &[&[u8]] = &[
     b"?", b" ", b",", b"\n", b"5", b"-2.5E1", b"'a b'", b"#12xy", b"ON", b"#H1F", b"@",
 ];
 
+/// Lexeme alphabet of the sweep: headers that take strings / blocks, quote characters, block
+/// headers (also with zero-padded and zero length fields), payload bytes and separators.
+pub const SIGMA_PAYLOAD: &[&[u8]] = &[
+    b"A:S ", b"A:K ", b"A:N 5,", b"A:M ", b"A:L ", b"A:B", b":E", b"'", b"\"", b"#11", b"#12", b"#203", b"#3002", b"#10", b"x", b"\n", b";",
+    b",", b" ",
+];
+
+
 pub fn sigma_lexeme_json() -> serde_json::Value {
     serde_json::Value::Array(SIGMA_LEXEME.iter().map(|t| crate::util::show(t).into()).collect())
 }
